@@ -16,7 +16,9 @@ import re
 from pv import core, sem
 from pv.export import Unsupported
 
-HEAD = '''subroutine s(a, b, c, ia, n, m, t, u, kout, flag)
+HEAD = '''module cm
+contains
+subroutine s(a, b, c, ia, n, m, t, u, kout, flag)
   integer, intent(inout) :: n
   integer, intent(inout) :: m
   integer, intent(inout) :: kout
@@ -32,7 +34,23 @@ HEAD = '''subroutine s(a, b, c, ia, n, m, t, u, kout, flag)
   integer :: k
   real :: x
 '''
-TAIL = "end subroutine s\n"
+TAIL = '''end subroutine s
+subroutine incr(y)
+  real, intent(inout) :: y
+  y = y + 1.0
+end subroutine incr
+subroutine setout(y, p)
+  real, intent(out) :: y
+  integer, intent(in) :: p
+  y = real(p)
+end subroutine setout
+subroutine setel(v, p)
+  real, dimension(0:9), intent(inout) :: v
+  integer, intent(in) :: p
+  v(p) = 0.5
+end subroutine setel
+end module cm
+'''
 DOM = [("n", [0, 1, 3]), ("m", [1, 2]), ("kout", [2]), ("t", [[1, 2]]), ("u", [[3, 1]]),
        ("flag", [True, False])]
 FILLS = [1, 2]
@@ -51,6 +69,8 @@ BODIES = [
     ["x = 0.0", "do i = 1, n", "  x = x + a(i)", "end do", "t = x", "a(0) = t"],
     ["do i = 1, n", "  if (b(i) > 20.0) then", "    x = b(i)", "  end if", "end do", "t = x"],
     ["flag = n > 1", "if (flag) a(1) = 1.0", "a(2) = a(1)", "flag = .not. flag"],
+    ["call incr(t)", "u = t", "call setel(a, n)", "t = a(n)", "call incr(a(m))"],
+    ["call setout(x, m)", "t = x", "call incr(u)", "call incr(u)"],
 ]
 
 
